@@ -109,7 +109,11 @@ def build(d, memo):
     if t == "resolution":
         return resxy_(float(d["x"]), float(d["y"]))
     if t == "gridspec":
-        return GridSpec(_crs(d["crs"], memo), tuple(d["tile"]), d["res"], origin=xy_(float(d["origin"][0]), float(d["origin"][1])),
+        res = d["res"]
+        if d.get("rsign", "default") != "default":
+            sg = d["rsign"]
+            res = resxy_(float(res) * (1 if sg[1] == "+" else -1), float(res) * (1 if sg[3] == "+" else -1))
+        return GridSpec(_crs(d["crs"], memo), tuple(d["tile"]), res, origin=xy_(float(d["origin"][0]), float(d["origin"][1])),
                         flipx=d["flip"][0], flipy=d["flip"][1])
     if t == "gcp":
         key = ("gcpmap", d["pts"], tuple(d["crs"]))
